@@ -4,6 +4,7 @@ import (
 	"bytes"
 	"fmt"
 	"regexp"
+	"strings"
 	"time"
 )
 
@@ -201,6 +202,9 @@ func scenC07(r *Run, job *Job) {
 		switch {
 		case inv.AnswerKind != "" && bytes.Equal(body, inv.Answered):
 			r.Probe("body:runtime-payload")
+		case inv.ReqID != "" && postedFor(e, inv.ReqID, body):
+			// posted by the runtime for this invocation; its process died before it could read the verdict
+			r.Probe("body:runtime-payload-unacknowledged")
 		case st == 200 && bytes.Equal(body, timeoutBody):
 			r.Probe("body:timeout")
 		case len(body) == 0 && st >= 500:
@@ -299,4 +303,19 @@ func ghostGeneration(w *World, e *Engine) string {
 		}
 	}
 	return ""
+}
+
+// postedFor reports whether some runtime submitted exactly body for request id (whatever verdict it got to see).
+func postedFor(e *Engine, id string, body []byte) bool {
+	for _, a := range e.Actors() {
+		if !a.IsRT {
+			continue
+		}
+		for _, c := range a.Calls {
+			if (c.Tag == "rt-response" || c.Tag == "rt-error") && strings.Contains(c.Path, "/"+id+"/") && bytes.Equal(c.ReqBody, body) {
+				return true
+			}
+		}
+	}
+	return false
 }
